@@ -32,6 +32,18 @@ func init() {
 	props["C16-cyclic-probe"] = func(c *Ctx) { c16CyclicProbe() }
 }
 
+var keyedCount = map[string]int{}
+
+// violateKeyed records at most 8 violations per key (the report keeps 200 in all), so that a frequent
+// class cannot crowd out a rare one; the total per key is kept as a counter.
+func violateKeyed(c *Ctx, v Violation) {
+	c.R.Count("violations:"+v.Key, 1)
+	keyedCount[v.Key]++
+	if keyedCount[v.Key] <= 8 {
+		c.R.Violate(v)
+	}
+}
+
 // c16Model: the model variant the real code is tied to.  `asis` mirrors /repo today; after the fix:
 // commits have landed (and `Defects.asIs` has been flipped) or for a self-test against a patched copy
 // (VERIF_REPO=… VERIF_C16_MODEL=repaired bin/check C16) it is `repaired`.
@@ -68,7 +80,7 @@ func c16CyclicEmbedding(c *Ctx) {
 		if i := strings.Index(string(out), "fatal error:"); i >= 0 {
 			msg = firstLine(string(out)[i:])
 		}
-		c.R.Violate(Violation{What: "an environment struct that embeds a pointer to itself crashes the process in conf.FieldsFromStruct (unbounded recursion)",
+		violateKeyed(c, Violation{What: "an environment struct that embeds a pointer to itself crashes the process in conf.FieldsFromStruct (unbounded recursion)",
 			Key: "c16:cyclic-pointer-embedding-stack-overflow", Input: c16Input{"ZCyc", "main.ZCyc (struct { Name string; *ZCyc })", "Name", "Name"},
 			Expect: "Compile returns (Name resolves to the field at depth 0)", Got: msg})
 	}
@@ -743,11 +755,11 @@ func c16TopLevel(c *Ctx, e zooEnv, names []string, rows []*Sx) {
 				if acc {
 					key = "c16:doc-omits-accepted-name"
 				}
-				c.R.Violate(Violation{What: "docgen.CreateDoc(env).Variables differs from the names the checker accepts", Key: key, Input: in,
+				violateKeyed(c, Violation{What: "docgen.CreateDoc(env).Variables differs from the names the checker accepts", Key: key, Input: in,
 					Expect: fmt.Sprintf("listed=%v", acc), Got: fmt.Sprintf("listed=%v (compile: %s)", inDoc, rv.cerr)})
 			}
 		} else if i == 0 {
-			c.R.Violate(Violation{What: "docgen.CreateDoc panics on a map environment holding a nil value (nil reflect.Type in docgen.use)", Key: "c16:docgen-panics-on-nil-entry", Input: in, Expect: "a Context", Got: docErr})
+			violateKeyed(c, Violation{What: "docgen.CreateDoc panics on a map environment holding a nil value (nil reflect.Type in docgen.use)", Key: "c16:docgen-panics-on-nil-entry", Input: in, Expect: "a Context", Got: docErr})
 		}
 
 		// ---- oracle: accepted => resolvable with the assumed type
@@ -763,14 +775,14 @@ func c16TopLevel(c *Ctx, e zooEnv, names []string, rows []*Sx) {
 			case t.Kind() == reflect.Map && t.Key().Kind() == reflect.String && t.Key() != reflect.TypeOf(""):
 				key, what = "c16:defined-string-key-map-env", "names of a map environment whose key type is a defined string type are accepted but cannot be fetched"
 			}
-			c.R.Violate(Violation{What: what, Key: key, Input: in, Expect: "run succeeds with a value of type " + fmt.Sprint(rv.ty), Got: rv.rerr})
+			violateKeyed(c, Violation{What: what, Key: key, Input: in, Expect: "run succeeds with a value of type " + fmt.Sprint(rv.ty), Got: rv.rerr})
 		}
 		if rv.accepted && rv.ran && !valueHasType(rv.out, rv.ty) {
 			key := "c16:identifier-type-differs"
 			if methodFound && fieldFound {
 				key = "c16:method-shadows-promoted-field"
 			}
-			c.R.Violate(Violation{What: "the value fetched at run time does not have the type the checker assumed", Key: key, Input: in,
+			violateKeyed(c, Violation{What: "the value fetched at run time does not have the type the checker assumed", Key: key, Input: in,
 				Expect: "value of type " + fmt.Sprint(rv.ty), Got: fmt.Sprintf("%T", rv.out)})
 		}
 		// ---- oracle: Go resolves an exported member unambiguously => accepted (struct environments)
@@ -784,7 +796,7 @@ func c16TopLevel(c *Ctx, e zooEnv, names []string, rows []*Sx) {
 					key, what = "c16:shallower-embedded-field-marked-ambiguous", "a promoted field that Go resolves by depth is reported ambiguous"
 				}
 			}
-			c.R.Violate(Violation{What: what, Key: key, Input: in, Expect: "accepted with type " + fmt.Sprint(ftype), Got: rv.cerr})
+			violateKeyed(c, Violation{What: what, Key: key, Input: in, Expect: "accepted with type " + fmt.Sprint(ftype), Got: rv.cerr})
 		}
 
 		// ---- calls
@@ -809,7 +821,7 @@ func c16TopLevel(c *Ctx, e zooEnv, names []string, rows []*Sx) {
 				c.R.Mismatch("c16/func-verdict", in.Env+" "+src, row[2].String(), fmt.Sprintf("accepted=%v err=%s", cv.accepted, cv.cerr))
 			}
 			if cv.accepted && !cv.ran {
-				c.R.Violate(Violation{What: "call of a name that does not resolve is accepted", Key: "c16:unresolvable-call-accepted", Input: c16Input{e.Name, t.String(), src, name}, Expect: "rejected", Got: cv.rerr})
+				violateKeyed(c, Violation{What: "call of a name that does not resolve is accepted", Key: "c16:unresolvable-call-accepted", Input: c16Input{e.Name, t.String(), src, name}, Expect: "rejected", Got: cv.rerr})
 			}
 			continue
 		}
@@ -855,10 +867,10 @@ func c16TopLevel(c *Ctx, e zooEnv, names []string, rows []*Sx) {
 					key, what = "c16:interface-member-called", "member of interface type holding a non-function accepted as callable (dynamic; not a name-resolution fault)"
 				}
 				if key != "c16:interface-member-called" {
-					c.R.Violate(Violation{What: what, Key: key, Input: cin, Expect: "call succeeds", Got: cv.rerr})
+					violateKeyed(c, Violation{What: what, Key: key, Input: cin, Expect: "call succeeds", Got: cv.rerr})
 				}
 			} else if !valueHasType(cv.out, cv.ty) {
-				c.R.Violate(Violation{What: "the call's result does not have the type the checker assumed", Key: "c16:call-type-differs", Input: cin,
+				violateKeyed(c, Violation{What: "the call's result does not have the type the checker assumed", Key: "c16:call-type-differs", Input: cin,
 					Expect: "value of type " + fmt.Sprint(cv.ty), Got: fmt.Sprintf("%T", cv.out)})
 			}
 		} else if isStructEnv && callable && (methodFound || (fieldFound && exported)) {
@@ -866,7 +878,7 @@ func c16TopLevel(c *Ctx, e zooEnv, names []string, rows []*Sx) {
 			if strings.Contains(cv.cerr, "ambiguous") {
 				key = "c16:outer-field-shadowing-embedded-marked-ambiguous"
 			}
-			c.R.Violate(Violation{What: what, Key: key, Input: cin, Expect: "accepted", Got: cv.cerr})
+			violateKeyed(c, Violation{What: what, Key: key, Input: cin, Expect: "accepted", Got: cv.cerr})
 		}
 	}
 }
@@ -1081,14 +1093,14 @@ func c16Member(c *Ctx, e zooEnv, path string, rt reflect.Type, name string, row 
 		case base.Kind() == reflect.Map:
 			key, what = "c16:member-of-non-string-keyed-map-accepted", "member access on a map whose key type is not string is accepted"
 		}
-		c.R.Violate(Violation{What: what, Key: key, Input: in, Expect: "run succeeds with a value of type " + fmt.Sprint(rv.ty), Got: rv.rerr})
+		violateKeyed(c, Violation{What: what, Key: key, Input: in, Expect: "run succeeds with a value of type " + fmt.Sprint(rv.ty), Got: rv.rerr})
 	}
 	if rv.accepted && rv.ran && !valueHasType(rv.out, rv.ty) {
-		c.R.Violate(Violation{What: "the checker's depth-first member search assumes another field than the one Go (and the VM) resolve", Key: "c16:member-type-depth-first-differs-from-go", Input: in,
+		violateKeyed(c, Violation{What: "the checker's depth-first member search assumes another field than the one Go (and the VM) resolve", Key: "c16:member-type-depth-first-differs-from-go", Input: in,
 			Expect: "value of type " + fmt.Sprint(rv.ty), Got: fmt.Sprintf("%T", rv.out)})
 	}
 	if base.Kind() == reflect.Struct && fieldFound && exported && !rv.accepted {
-		c.R.Violate(Violation{What: "exported member that Go resolves is rejected by the checker", Key: "c16:resolvable-member-rejected", Input: in, Expect: "accepted with type " + fmt.Sprint(ftype), Got: rv.cerr})
+		violateKeyed(c, Violation{What: "exported member that Go resolves is rejected by the checker", Key: "c16:resolvable-member-rejected", Input: in, Expect: "accepted with type " + fmt.Sprint(ftype), Got: rv.cerr})
 	}
 
 	// ---- method / func-member calls
@@ -1123,7 +1135,7 @@ func c16Member(c *Ctx, e zooEnv, path string, rt reflect.Type, name string, row 
 			if occ >= 2 || methodOccurs(rt, name) {
 				key, what = "c16:ambiguous-method-accepted", "method or member that Go finds ambiguous (or that needs an addressable receiver) is accepted by the checker's depth-first search"
 			}
-			c.R.Violate(Violation{What: what, Key: key, Input: c16Input{e.Name, rt.String(), csrc, name}, Expect: "rejected", Got: cv.rerr})
+			violateKeyed(c, Violation{What: what, Key: key, Input: c16Input{e.Name, rt.String(), csrc, name}, Expect: "rejected", Got: cv.rerr})
 		}
 		return
 	}
@@ -1161,7 +1173,7 @@ func c16Member(c *Ctx, e zooEnv, path string, rt reflect.Type, name string, row 
 			c.R.Mismatch("c16/membercall-run", e.Name+" "+csrc+" : "+rt.String(), row[4].String(), fmt.Sprintf("ran=%v err=%s", cv.ran, cv.rerr))
 		}
 		if !cv.ran && ft.Kind() == reflect.Interface && !dynamicOnly && base.Kind() == reflect.Struct {
-			c.R.Violate(Violation{What: "function held in a struct field of interface type is accepted as callable, but FetchFn returns the interface-kinded field and reflect's Call refuses it",
+			violateKeyed(c, Violation{What: "function held in a struct field of interface type is accepted as callable, but FetchFn returns the interface-kinded field and reflect's Call refuses it",
 				Key: "c16:func-in-interface-field-not-callable", Input: cin, Expect: "call succeeds", Got: cv.rerr})
 		}
 		if !cv.ran && ft.Kind() == reflect.Func {
@@ -1172,12 +1184,12 @@ func c16Member(c *Ctx, e zooEnv, path string, rt reflect.Type, name string, row 
 			case !methodFound && !fieldFound:
 				key, what = "c16:ambiguous-method-accepted", "method that Go finds ambiguous (or that needs an addressable receiver) is accepted by the checker's depth-first search"
 			}
-			c.R.Violate(Violation{What: what, Key: key, Input: cin, Expect: "call succeeds", Got: cv.rerr})
+			violateKeyed(c, Violation{What: what, Key: key, Input: cin, Expect: "call succeeds", Got: cv.rerr})
 		} else if cv.ran && !valueHasType(cv.out, cv.ty) {
-			c.R.Violate(Violation{What: "the call's result does not have the type the checker assumed", Key: "c16:membercall-type-differs", Input: cin,
+			violateKeyed(c, Violation{What: "the call's result does not have the type the checker assumed", Key: "c16:membercall-type-differs", Input: cin,
 				Expect: "value of type " + fmt.Sprint(cv.ty), Got: fmt.Sprintf("%T", cv.out)})
 		}
 	} else if base.Kind() == reflect.Struct && callable && (methodFound || (fieldFound && exported)) {
-		c.R.Violate(Violation{What: "callable exported member that Go resolves is rejected by the checker", Key: "c16:resolvable-method-rejected", Input: cin, Expect: "accepted", Got: cv.cerr})
+		violateKeyed(c, Violation{What: "callable exported member that Go resolves is rejected by the checker", Key: "c16:resolvable-method-rejected", Input: cin, Expect: "accepted", Got: cv.cerr})
 	}
 }
